@@ -24,7 +24,7 @@ fn apply_model(m: &mut Model, st: &Step) {
     match st {
         Step::Append(sizes) => for s in sizes { let b = block_bytes(m.0.len(), *s); m.1 += b.len() as u64; m.0.push(Some(b)); },
         Step::Clear(a, b) => for i in *a..(*b).min(m.0.len() as u64) { m.0[i as usize] = None; },
-        Step::Reopen => {}
+        Step::Reopen | Step::ReadOnly => {}
     }
 }
 fn run_step(core: &mut crate::Hypercore, m: &Model, st: &Step) -> Result<(), String> {
@@ -32,7 +32,7 @@ fn run_step(core: &mut crate::Hypercore, m: &Model, st: &Step) -> Result<(), Str
         Step::Append(sizes) => { let blocks: Vec<Vec<u8>> = sizes.iter().enumerate().map(|(k, s)| block_bytes(m.0.len() + k, *s)).collect();
             let refs: Vec<&[u8]> = blocks.iter().map(|b| b.as_slice()).collect(); block_on(core.append_batch(&refs)).map(|_| ()).map_err(|e| e.to_string()) }
         Step::Clear(a, b) => block_on(core.clear(*a, *b)).map_err(|e| e.to_string()),
-        Step::Reopen => Ok(()),
+        Step::Reopen | Step::ReadOnly => Ok(()),
     }
 }
 
